@@ -132,6 +132,37 @@ def r04_5(ck, F):
               "the buffered MaxItemSizeExceeded exit is reachable after data was handed to chmux", b.loc(gates[0]) if gates else b.loc(0))
 
 
+def r04_6(ck, F):
+    ck.rule("R04.6", "restartable streamed receive: in base::Receiver::recv the queue slot for the deserializer is reserved "
+            "before a chunk is taken from the port, and between obtaining the chunk (recv_chunk() -> Ok(Some)) and handing "
+            "it over (Permit::send) there is no suspension point",
+            "recv() dropped by a timeout / select! while the deserializer queue is full: the chunk already taken from the "
+            "port is lost, the streamed item is corrupted although its send succeeded", floor=1)
+    b = F.main_body(BRECV)
+    rc = [a for a in b.awaits() if (a.get("fut_fn") or "").startswith("chmux::receiver::Receiver::recv_chunk")]
+    hand = {bb for bb, t in b.calls(PERMIT_SEND)}
+    if not rc:
+        raise mir.AnchorMissing("recv_chunk().await in base::Receiver::recv")
+    for a in rc:
+        some_edges = []
+        for s in b.reachable:
+            t = b.term(s)
+            if t["t"] != "switch":
+                continue
+            e = switch_expr(b, s)
+            if e[0] == "discr" and any(w[0] == "await" and w[2] == a["poll_bb"] for w in mir.walk(e) if isinstance(w, tuple) and w):
+                some_edges += [tb for v, tb in t["targets"] if switch_meaning(b, s, v) == "Some"]
+        # abandoning the item with an error (size limit) is the other legitimate fate of a taken chunk
+        errs = {bb for bb, i, rv in b.aggregates() if rv["adt"].split("::")[-1].endswith("Error") and rv["adt"].startswith("rch::base::receiver")}
+        p = b.find_path(some_edges, b.yields(), avoid=hand | errs) if some_edges else [0]
+        ck.expect(bool(hand) and bool(some_edges) and p is None, "base::Receiver::recv#chunk-handover",
+                  "a received chunk is handed to the reserved slot without suspension",
+                  f"after a chunk was taken from the port ({b.loc(a['yield_bb'])}) the receive future can suspend before the "
+                  f"chunk is handed over: a restarted recv() loses it", b.loc(a["yield_bb"]))
+
+
 def run(ck, F):
-    for r in (r04_1, r04_2, r04_3, r04_4, r04_5):
+    for r in (r04_1, r04_2, r04_3, r04_4, r04_5, r04_6):
         ck.run_rule(r)
+    ck.run_rule(c01.r01_5)
+    ck.run_rule(c01.r01_5b)
